@@ -90,4 +90,57 @@ def encMore (token : Int) (no : Nat) (cs : List ClientInfo) : List UInt8 :=
   putInt .info6ExMore token (putInt .info6ExMore (no : Int) (putStr [] (encClients .info6ExMore cs [])))
 
 
+/-! ### executable representability checkers (sound w.r.t. `GoodStr` / `ClientOk` / `HeadOk`, see
+`Proofs/ServerBrowseEncode.lean`) -/
+
+def goodStrB (cap : Nat) (s : List UInt8) : Bool :=
+  s.all (fun b => b != 0) && utf8Valid s && decide (s.length ≤ cap)
+
+def inI32B (v : Int) : Bool := decide (-(2 : Int) ^ 31 ≤ v) && decide (v < (2 : Int) ^ 31)
+
+def clientOkB (k : InfoKind) (c : ClientInfo) : Bool :=
+  let ver := k.received.version
+  goodStrB CAP_CLIENT_NAME c.name && inI32B c.score &&
+  (if ver.hasExtendedPlayerInfo then
+      goodStrB CAP_CLIENT_CLAN c.clan && inI32B c.country &&
+        (if ver.hasFullClientFlags then inI32B c.flags else (c.flags == 0 || c.flags == 1))
+    else c.clan == [] && c.country == -1 && c.flags == 0)
+
+def countsSaneB (i : ServerInfo) : Bool :=
+  decide (0 ≤ i.numPlayers) && decide (i.numPlayers ≤ i.numClients) && decide (i.numClients ≤ i.maxClients) &&
+  decide (0 ≤ i.maxPlayers) && decide (i.maxPlayers ≤ i.maxClients) &&
+  (match i.infoVersion.maxClients with
+   | some m => decide (i.maxClients ≤ (m : Int))
+   | none => true)
+
+def headOkB (k : InfoKind) (i : ServerInfo) (offset : Nat) : Bool :=
+  let ver := k.received.version
+  (i.infoVersion == ver) && inI32B i.token &&
+  goodStrB CAP_VERSION i.version && goodStrB CAP_NAME i.name && goodStrB CAP_MAP i.map &&
+  goodStrB CAP_GAME_TYPE i.gameType && inI32B i.flags &&
+  (if ver.hasHostname then (match i.hostname with | some h => goodStrB CAP_HOSTNAME h | none => false)
+   else i.hostname.isNone) &&
+  (if ver.hasExtendedMapInfo then
+      (match i.mapCrc, i.mapSize with
+       | some c, some sz => decide (c < 2 ^ 32) && decide (sz < 2 ^ 31)
+       | _, _ => false)
+   else i.mapCrc.isNone && i.mapSize.isNone) &&
+  (if ver.hasProgression then (match i.progression with | some p => inI32B p | none => false)
+   else i.progression.isNone) &&
+  (if ver.hasSkillLevel then (match i.skillLevel with | some p => inI32B p | none => false)
+   else i.skillLevel.isNone) &&
+  countsSaneB i && inI32B i.maxClients &&
+  (if ver.hasExtendedPlayerInfo then true
+   else decide (i.numClients = i.numPlayers) && decide (i.maxClients = i.maxPlayers)) &&
+  (if ver.hasOffset then decide (offset < 2 ^ 31) else decide (offset = 0))
+
+/-- everything `roundtrip_normal` asks for, as one executable test -/
+def representableB (k : InfoKind) (i : ServerInfo) (offset : Nat) : Bool :=
+  k != .info6ExMore && headOkB k i offset && i.clients.all (clientOkB k) &&
+  (if k == .info664 then decide (offset + i.clients.length ≤ RECEIVED_BITS) else true)
+
+/-- … and what `roundtrip_more` asks for -/
+def representableMoreB (token : Int) (no : Nat) (cs : List ClientInfo) : Bool :=
+  inI32B token && decide (1 ≤ no) && decide (no < 64) && cs.all (clientOkB .info6ExMore)
+
 end Tw.ServerBrowse
